@@ -203,6 +203,8 @@ fn c02(tier: Tier) -> Vec<SeqCfg> {
     a.push(get(K2));
     // a pending delayed flush rewrites item metadata: tokens must survive it
     a.push(flush(Some(3)));
+    // an immediate flush ends every lifetime; the generator goes on
+    a.push(flush(None));
     // a delta of 0 is a mutation like any other: guarded, and it rotates the token
     a.push(incr(K1, 0, 10, 0, Stale1));
     a.push(incr(K1, 0, 10, 0, Current));
@@ -325,6 +327,8 @@ fn c06(tier: Tier) -> Vec<SeqCfg> {
         add(K1, b"A", 1, 0),
         add(K1, b"", 0xdeadbeef, 0),
         add(K1, &[0u8, 0xff], 2, 0),
+        store(StoreKind::Add, K1, b"X", 9, 0, CasArg::Arb(0x7777)),
+        store(StoreKind::Replace, K1, b"Y", 9, 0, CasArg::Arb(0x7777)),
         replace(K1, b"R", 3, 0),
         replace(K1, &[0u8, 0xff], 0xdeadbeef, 0),
         // same bytes as a value another command stores, different flags / ttl
@@ -459,7 +463,22 @@ fn c08(tier: Tier) -> Vec<SeqCfg> {
     let d = if tier == Tier::Quick { 7 } else { 9 };
     let mut c = base("C08/delete-flush", "C08", a, d, tier);
     c.start_time = 50;
-    vec![c]
+    let mut v = vec![c];
+    // two clients, one command at a time: a flush is a flush whichever connection sends it and
+    // whatever that connection sent before (second copy of the alphabet over a second connection,
+    // histories without state matching)
+    {
+        let half = vec![set(K1, b"v", 1, 0), get(K1), flush(None), flush(Some(1)), quiet(flush(None)), delete(K1, Zero)];
+        let mut both = half.clone();
+        both.extend(half.iter().cloned());
+        both.push(tick(1));
+        let mut c = base("C08/two-connections", "C08", both, if tier == Tier::Quick { 4 } else { 5 }, tier);
+        c.alt_conn_from = half.len();
+        c.no_dedup = true;
+        c.start_time = 50;
+        v.push(c);
+    }
+    v
 }
 
 fn c14(tier: Tier) -> Vec<SeqCfg> {
@@ -563,6 +582,28 @@ fn c15(tier: Tier) -> Vec<SeqCfg> {
         c.sut.policy = Policy::Random(100);
         c.evict = Evict::Generous;
         c.check_usage = true;
+        v.push(c);
+    }
+    // a store that must evict meets a map in which every record is expired and not yet collected:
+    // the policy's idea of "how many records" and the records it can actually remove are the same
+    // thing (start states: a TTL item overwritten three times under limit 60, then the clock moves)
+    {
+        let a = vec![
+            set(K3, b"tmp", 4, 1),
+            tick(2),
+            set(K1, b"a", 1, 0),
+            set(K2, b"7", 3, 0),
+            delete(K3, Zero),
+            get(K3),
+            get(K1),
+        ];
+        let mut c = base("C15/all-expired-L=60", "C15", a, if tier == Tier::Quick { 3 } else { 5 }, tier);
+        c.sut.policy = Policy::Random(60);
+        c.evict = Evict::Generous;
+        c.check_usage = true;
+        c.roots.push(vec![0, 0, 0, 1]);
+        c.roots.push(vec![0, 0, 0, 0, 1]);
+        c.no_dedup = true;
         v.push(c);
     }
     // which worker thread serves a client is not the client's business: the same small alphabet
@@ -702,6 +743,10 @@ fn c19(tier: Tier) -> Vec<SeqCfg> {
         incr(K1, 2, 10, 0, Zero),
         decr(K1, 1, 10, 0, Zero),
         incr(K2, 1, 10, 0xffff_ffff, Zero),
+        // a delta of 0 still creates, re-stamps, rotates the token and reports errors
+        incr(K1, 0, 10, 3, Zero),
+        decr(K2, 0, 7, 0, Zero),
+        incr(K1, 0, 10, 0, Stale1),
         delete(K1, Zero),
         delete(K2, Stale1),
         get(K1),
